@@ -98,6 +98,9 @@ type Model struct {
 	// touched keys of the last command (for WATCH cross-checks and TTL rules)
 	lastTouched []wkey
 	inExec      bool
+	// Lazy counts keys that disappeared through expiry (deadline passed, or a deadline in the past
+	// was set). Redis reclaims such keys at its own pace, so DBSIZE may still count them.
+	Lazy int
 }
 
 func NewModel(nowMs int64) *Model {
@@ -114,7 +117,7 @@ func (m *Model) NewSession() int {
 }
 
 func (m *Model) Clone() *Model {
-	c := &Model{Now: m.Now}
+	c := &Model{Now: m.Now, Lazy: m.Lazy, Unspec: m.Unspec}
 	for i := range m.DBs {
 		c.DBs[i] = make(map[string]*Obj, len(m.DBs[i]))
 		for k, o := range m.DBs[i] {
@@ -207,6 +210,7 @@ func (m *Model) purge() {
 			if o.Exp != 0 && o.Exp <= m.Now {
 				delete(m.DBs[i], k)
 				m.touch(i, k)
+				m.Lazy++
 			}
 		}
 	}
